@@ -212,7 +212,7 @@ class Crate:
         return [b for b in self.bodies if b.get("impl_id") == impl["id"]]
 
 
-class Facts:
+class FactBase:
     """Facts of one configuration."""
 
     def __init__(self, config, root=None, directory=None):
@@ -249,7 +249,7 @@ class Facts:
 
 def load_all(tier="quick", root=None):
     cfgs = ["default", "all-features"] if tier == "quick" else ["default", "all-features", "no-default-features"]
-    return {c: Facts(c, root) for c in cfgs}
+    return {c: FactBase(c, root) for c in cfgs}
 
 
 if __name__ == "__main__":
